@@ -66,4 +66,8 @@ def fdiLength (bitsP bitsU : Int) : Int := bitsP + 15 - bitsU
 def fdiDblCount (torsion bitsP bitsU : Int) : Int := torsion - fdiLength bitsP bitsU - 2
 def fdiRow (torsion bitsP bitsU : Int) : Int := torsion - fdiLength bitsP bitsU
 
+/-- the range guard of `fixed_degree_isogeny` (fix d48f5af): the function returns 0 when this holds -/
+def fdiGuardRejects (torsion rows length bitsU : Int) : Bool :=
+  decide (length + 2 > torsion) || decide (torsion - length ≥ rows) || decide (bitsU > length)
+
 end SqiModel.IdealKernel
